@@ -94,6 +94,14 @@ def build(case, tmpdir=None):
     def cur_line():
         return sum(x.count("\n") + 1 for x in out) + len(out) + 1  # blocks are joined by blank lines
 
+    if case.get("fm_title"):
+        # a title in the front matter, turned into the document's first H1 (title_to_header): heading H0, no paragraph
+        how = case["fm_title"]
+        out.append("---\ntitle: H0\n" + ("myst:\n  title_to_header: true\n" if how == "front" else "") + "---")
+        levels.append(1)
+        hlines.append(None)
+        hi = 1
+
     for it in case["items"]:
         if it["t"] == "h":
             hlines.append(cur_line())
@@ -196,13 +204,15 @@ def check_case(acc, case) -> list[dict]:
         text, levels, hlines, nested = build(case, tmp)
         src = os.path.join(tmp, "main.md") if tmp else "<string>"
         settings = {"myst_enable_extensions": ["colon_fence", "deflist", "fieldlist"], "myst_footnote_sort": False}
+        if case.get("fm_title") == "config":
+            settings["myst_title_to_header"] = True
         try:
             doc, warn = front.docutils_parse(text, source_path=src, settings=settings)
         except Exception as exc:  # noqa: BLE001
             return [mk(f"C05:render-raises:{type(exc).__name__}", case, "document", f"{type(exc).__name__}: {exc}")]
         text_wo = None
         if nested:
-            case2 = {"items": [
+            case2 = {"fm_title": case.get("fm_title"), "items": [
                 ({**it, "between": [None if (b and b[0] in ("quoteh", "listh", "noteh")) else b for b in (it.get("between") or [])]}
                  if it["t"] == "include" else it) for it in case["items"] if it["t"] != "nested"]}
             text_wo, _, _, _ = build(case2, tmp)
@@ -229,7 +239,7 @@ def check_case(acc, case) -> list[dict]:
             break
         # the marker paragraph after heading i belongs to section i
         paras = [p for p in sec.children if isinstance(p, nodes.paragraph) and p.astext() == f"P{i}"]
-        if len(paras) != 1:
+        if len(paras) != 1 and not (i == 0 and case.get("fm_title")):
             vs.append(mk("C05:paragraph-not-in-its-section", case, f"P{i} under H{i}",
                          [c.astext()[:10] for c in sec.children]))
             break
@@ -317,6 +327,19 @@ def sub_enum(acc, shard, nshards, tier, seed):
                     acc.known_hits[v["signature"]] += 1
                 elif len(acc.violations) < 8 and all(v["signature"] != w["signature"] for w in acc.violations):
                     acc.violations.append(v)
+    # a front-matter title as the first H1 (title_to_header, selected in the front matter or globally) x every sequence
+    for how in ("front", "config"):
+        for n in range(0, 4):
+            for seq in itertools.product(range(1, 7), repeat=n):
+                i += 1
+                if i % nshards != shard:
+                    continue
+                case = {"fm_title": how, "items": [{"t": "h", "level": L} for L in seq]}
+                for v in check_case(acc, case):
+                    if kn.matches(v):
+                        acc.known_hits[v["signature"]] += 1
+                    elif len(acc.violations) < 8 and all(v["signature"] != w["signature"] for w in acc.violations):
+                        acc.violations.append(v)
     # every container kind x nested level x surrounding level pair
     for w in ALL_WRAPS:
         for L in range(1, 7):
@@ -375,7 +398,8 @@ def random_case(draw):
     if draw(st.integers(0, 2)) == 0:
         for _ in range(draw(st.integers(1, 2))):
             items.insert(draw(st.integers(0, len(items))), draw(include_st))
-    return {"items": items}
+    fm = draw(st.sampled_from([None, None, None, "front", "config"]))
+    return {"items": items, "fm_title": fm} if fm else {"items": items}
 
 
 def sub_random(acc, shard, nshards, tier, seed):
